@@ -117,6 +117,9 @@ def grid(params: Dict) -> nx.MultiDiGraph:
     if p_par > 0:
         for a, b, d in [(a, b, dict(d)) for a, b, d in g.edges(data=True)]:
             if rnd.random() < p_par:
+                if params.get("parallel_differs"):
+                    # a second carriageway / crescent between the same junctions with its own length and speed
+                    d = dict(d, length=d["length"] * rnd.uniform(1.0, 2.5), speed_kmph=rnd.choice(speeds))
                 g.add_edge(a, b, **d)
     # dead-end spurs: a driveway of 3-10 m off a junction (both directions); at ordinary speeds it takes less than a second
     p_spur = float(params.get("spurs", 0.0))
